@@ -119,8 +119,8 @@ Proof.
   intros w a b sched w' ts' tr' Hw Ha Hb R.
   assert (E : explore 64 verdict2 w (mk_threads [(a, None); (b, None)]) [] = true).
   { pose proof check_pairs_ok as C. unfold check_pairs in C.
-    pose proof (forallb_In _ _ _ C Hw) as C1. simpl in C1.
-    pose proof (forallb_In _ _ _ C1 Ha) as C2. simpl in C2.
+    pose proof (forallb_In _ _ _ C Hw) as C1. cbv beta in C1.
+    pose proof (forallb_In _ _ _ C1 Ha) as C2. cbv beta in C2.
     exact (forallb_In _ _ _ C2 Hb). }
   split; [eapply explore_no_deadlock; eauto|].
   intros F. pose proof (explore_sound _ _ _ _ _ E _ _ _ _ R F) as V. unfold verdict2 in V.
@@ -136,7 +136,7 @@ Proof.
   intros w a sched w' ts' tr' Hw Ha R F.
   assert (E : explore 64 (fun w' _ => ref_ok w') w (mk_threads [(a, None)]) [] = true).
   { pose proof check_isolation_ok as C. unfold check_isolation in C.
-    pose proof (forallb_In _ _ _ C Hw) as C1. simpl in C1. exact (forallb_In _ _ _ C1 Ha). }
+    pose proof (forallb_In _ _ _ C Hw) as C1. cbv beta in C1. exact (forallb_In _ _ _ C1 Ha). }
   exact (explore_sound _ _ _ _ _ E _ _ _ _ R F).
 Qed.
 
@@ -149,8 +149,8 @@ Proof.
   intros w a fl sched w' ts' tr' Hw Ha Hf R F.
   assert (E : explore 64 (fun w' tr => ref_ok w' || fault_removenode_plugin tr || addnode_rollback_failed tr) w (mk_threads [(a, fl)]) [] = true).
   { pose proof check_single_fault_ref_ok as C. unfold check_single_fault_ref in C.
-    pose proof (forallb_In _ _ _ C Hw) as C1. simpl in C1.
-    pose proof (forallb_In _ _ _ C1 Ha) as C2. simpl in C2. exact (forallb_In _ _ _ C2 Hf). }
+    pose proof (forallb_In _ _ _ C Hw) as C1. cbv beta in C1.
+    pose proof (forallb_In _ _ _ C1 Ha) as C2. cbv beta in C2. exact (forallb_In _ _ _ C2 Hf). }
   pose proof (explore_sound _ _ _ _ _ E _ _ _ _ R F) as V. cbn beta in V.
   apply orb_true_iff in V. destruct V as [V|V]; [|right; right; exact V].
   apply orb_true_iff in V. destruct V as [V|V]; [left; exact V | right; left; exact V].
